@@ -31,7 +31,7 @@ EXHAUSTIVE = {'quick': False, 'thorough': False}
 
 NS = [(), ('n',), ('xn',), ('nx',), ('n', 'm'), ('m', 'n'), ('xn', 'm')]
 GR = [(), ('g',), ('xg',), ('gx',), ('h', 'g'), ('g', 'h')]
-NM = ['a', 'xa', 'ax', '_a']
+NM = ['a', 'xa', 'ax', '_a', 'g']       # (`g` is also a group name)
 SMALL_NS = [(), ('n',), ('xn',), ('m', 'n'), ('n', 'm')]
 SMALL_GR = [(), ('g',), ('xg',), ('h', 'g')]
 SMALL_NM = ['a', 'xa']
@@ -214,7 +214,10 @@ def build_chain(names, tmp, with_consumer=True, short_inputs=None, self_inputs=N
             data['excluded_tasks'] = list(exclude_in[1])
         if short_inputs and short_inputs.get(ns):
             # a dependant in this namespace that names its inputs by short forms (relative to its own namespace)
-            smeta = type('Meta', (), {'name': 'zz_short', 'input_tasks': list(short_inputs[ns])})
+            # (every other short-form input is declared optional: an input that identifies a task is bound to it, the default is for absent ones)
+            from taskchain.parameter import InputTaskParameter
+            smeta = type('Meta', (), {'name': 'zz_short', 'input_tasks': [InputTaskParameter(q_, default='DEFAULT-NOT-A-TASK') if k_ % 2 else q_
+                                                                             for k_, q_ in enumerate(short_inputs[ns])]})
 
             def srun(self) -> int:
                 return 0
@@ -421,13 +424,24 @@ def check_chain(names, rng, res: CaseResult):
         def name_of(t):
             return ids.get(id(t), f'<foreign object {t!r}>') if t is not None else None
         for q in queries_for(names, rng, extra=3):
-            for via in ('chain', 'in', 'attr', 'inputs', 'inputs_in'):
-                universe = full if via in ('chain', 'in', 'attr') else list(names)
+            for via in ('chain', 'in', 'attr', 'inputs', 'inputs_in', 'force'):
+                universe = full if via in ('chain', 'in', 'attr', 'force') else list(names)
                 if via.startswith('inputs') and consumer is None:
                     continue
                 if via == 'attr' and not q.isidentifier():
                     continue
                 exp, M = oracle(q, universe)
+                if via == 'force':
+                    # a name that identifies no task uniquely is refused by force as by every other access
+                    if exp[0] != 'raise' or len(M) < 2:
+                        continue
+                    try:
+                        chain.force(q)
+                        res.violate(f'force(`{q}`) on chain with tasks {sorted(names)}: the name matches {M} (none is the less nested form), expected a refusal, '
+                                    f'but tasks were forced', witness={'names': names, 'query': q, 'via': 'force'})
+                    except (KeyError, ValueError, AttributeError):
+                        res.count('ambiguous_names_refused_by_force')
+                    continue
                 try:
                     if via == 'chain':
                         obs = ('return', name_of(chain[q]))
